@@ -291,6 +291,8 @@ def finish(prop, tier, seed, level, result, rule, distinct_keys, t0,
         if len(new) > 10:
             print('  (+%d further violations not written out)' % (len(new) - 10))
         code = EXIT_VIOLATED
+        for msg in result.inconclusive[:5]:
+            print('(also inconclusive: %s)' % msg[-600:])
     elif result.inconclusive:
         for msg in result.inconclusive[:10]:
             print('INCONCLUSIVE property=%s %s' % (prop, msg))
